@@ -19,7 +19,8 @@ Lits(ty, i) ==
                         ACall("vec3", <<AInt(i), AFlt(2 * i + 1, 2), AInt(i + 2)>>),
                         AArr(<<AInt(i), AInt(i + 1)>>),
                         ACall("vec2", <<AInt(i), AInt(i + 1)>>)>>
-    [] ty = "Tree" -> <<TreeLit(i), AInt(i + 5), AArr(<<AVar("x"), AVar("y")>>), AInfix("+", AVar("z"), AInt(i))>>
+    [] ty = "Tree" -> <<TreeLit(i), AInt(i + 5), AArr(<<AVar("x"), AVar("y")>>), AInfix("+", AVar("z"), AInt(i)),
+                        AArr(<<AVar("y"), AVar("x"), AInt(1), AVar("z")>>)>>
     [] ty = "VecTree" -> <<AArr(<<AVar("x"), AVar("y")>>), AArr(<<AVar("z")>>),
                            AArr(<<AVar("x"), AInt(2), AArr(<<AVar("y"), AVar("z")>>)>>)>>
     [] ty = "Axis" -> <<AStr("y"), AChr("z"), AArr(<<AInt(0), AInt(1), AInt(0)>>), ACall("axis", <<AStr("x")>>),
@@ -65,7 +66,9 @@ ShapeCases(S) ==
   \cup OddCases(S)
 
 (* expressions *)
-Leaves == <<AVar("x"), AVar("y"), AInt(2), AInt(-3), AFlt(1, 2), AArr(<<AVar("x"), AVar("z")>>)>>
+Leaves == <<AVar("x"), AVar("y"), AInt(2), AInt(-3), AFlt(1, 2), AArr(<<AVar("x"), AVar("z")>>),
+            \* arrays of three and four trees in operand position (an implicit union of more than two members)
+            AArr(<<AVar("x"), AVar("y"), AVar("z")>>), AArr(<<AVar("z"), AInt(2), AVar("x"), AVar("y")>>)>>
 Small == <<AVar("x"), AInt(2), AArr(<<AVar("y"), AVar("z")>>), AFlt(5, 2)>>
 AllOps == InfixOps \cup BinaryFns \cup CmpOps \cup UnaryFns \cup {"neg"}
 Apply2(op, l, r) == IF op \in InfixOps THEN {AInfix(op, l, r)}
